@@ -777,8 +777,9 @@ class Sym:
                 # the same value was already tested on this path (expressions are values: loads carry versions): stay consistent
                 known = None
                 excluded = set()
+                dk = _cond_key(d)
                 for (_, d2, taken2, vals2) in p.conds:
-                    if d2 == d:
+                    if d2 == d or (dk is not None and _cond_key(d2) == dk):
                         if taken2 != "otherwise":
                             known = taken2
                         else:
@@ -803,6 +804,34 @@ class Sym:
                 return
             self._finish(p, env, "unknown:" + k, out, max_paths)
             return
+
+
+_SLEN = "core::slice::<impl [T]>::len"
+
+
+def _cond_key(d):
+    """Canonical form of a condition in which the length of a slice is spelled either `x.len()` or as the pointer metadata of a
+    (re)borrow of x -- the same value; None if the condition mentions no slice length (then only identical expressions are
+    treated as the same test)."""
+    hit = [False]
+
+    def strip(x):
+        while isinstance(x, tuple) and x and x[0] in ("ref", "rawptr", "deref", "cast") and isinstance(x[-1], tuple):
+            x = x[-1]
+        return x
+
+    def rec(x):
+        if not isinstance(x, tuple) or not x:
+            return x
+        if x[0] == "call" and len(x) == 4 and x[2] == _SLEN and len(x[3]) == 1:
+            hit[0] = True
+            return ("slen", rec(strip(x[3][0])))
+        if x[0] == "len" and len(x) == 2:
+            hit[0] = True
+            return ("slen", rec(strip(x[1])))
+        return tuple(rec(y) for y in x)
+    k = rec(d)
+    return k if hit[0] else None
 
 
 def _mentions(e, x):
